@@ -5,7 +5,7 @@ import numpy as np
 
 import trlib
 from geolib import Gen, call_impl
-from proto import ET, dec_tens, run_driver
+from proto import ET, dec_tens, proj_close_nn, run_driver
 from trlib import TM, XObj, exact_close_positions, gen_xobj, proj_equal_positions, rand_matrix
 
 ID = "C06"
@@ -159,7 +159,48 @@ def chain_stream(ctx, n):
             ctx.disagree(f"C06:chain:{x.kind}", line, np.asarray(z.array).tolist(), np.asarray(y.array).tolist(), replay=[line])
 
 
+def identity_and_batches(ctx, n):
+    """identity(dim) / t**0 are fresh objects (editing one in place must not change the next one); collections of >= 64 integer or
+    float transformations: t.inverse() * (t * x) == x at every position"""
+    import geometer as g
+    rng = ctx.rng
+    for k in range(n):
+        dim = rng.choice([2, 3])
+        i1 = g.identity(dim)
+        i1[0, dim] = 5.0                                # __setitem__ on one's own object is the documented mutator
+        t0 = g.Transformation(np.eye(dim + 1) * 2) ** 0
+        t0[0, 1] = -3.0
+        x = g.Point(*[float(rng.randint(-4, 4)) for _ in range(dim)])
+        desc = f"identity({dim}) after editing earlier identity objects in place, x={x}"
+        ctx.case(desc)
+        ctx.count("identity:fresh")
+        r = call_impl(lambda: (g.identity(dim) * x == x, (g.Transformation(np.eye(dim + 1) * 3) ** 0) * x == x, g.identity(dim, [2]) * x == g.PointCollection([x, x])))
+        if r[0] != "ok" or not all(bool(v) for v in r[1]):
+            ctx.disagree("C06:identity:not-fresh", desc, (True, True, True), r[1:3], replay=[desc])
+        size = rng.choice([64, 70])
+        dtype = rng.choice([int, float])
+        mats = []
+        while len(mats) < size:
+            m = np.array([[rng.randint(-3, 3) for _ in range(3)] for _ in range(3)])
+            if abs(round(np.linalg.det(m))) >= 1:
+                mats.append(m)
+        T = g.TransformationCollection(np.array(mats, dtype=dtype))
+        l = g.Line(float(rng.randint(1, 4)), float(rng.randint(-4, 4)), float(rng.randint(-4, 4)))
+        p = g.Point(float(rng.randint(-4, 4)), float(rng.randint(-4, 4)))
+        desc = f"{size} transformations ({dtype.__name__}): t.inverse() * (t * x) for a point and a line; first {mats[0].tolist()}"
+        ctx.case(desc)
+        ctx.count(f"batch-inverse:{dtype.__name__}")
+        r = call_impl(lambda: (T.inverse() * (T * p), T.inverse() * (T * l)))
+        if r[0] != "ok":
+            ctx.disagree(f"C06:batch-inverse:error:{r[1]}", desc, "x at every position", r[1:3], replay=[desc])
+            continue
+        a, b = np.asarray(r[1][0].array, dtype=float), np.asarray(r[1][1].array, dtype=float)
+        if not all(proj_close_nn(a[i], np.asarray(p.array, dtype=float), 1e-8) and proj_close_nn(b[i], np.asarray(l.array, dtype=float), 1e-8) for i in range(size)):
+            ctx.disagree(f"C06:batch-inverse:{dtype.__name__}", desc, "x at every position", "differs", replay=[desc])
+
+
 def correspondence(ctx):
+    identity_and_batches(ctx, ctx.budget(8, 80))
     apply_stream(ctx, ctx.budget(500, 8000))
     pow_stream(ctx, ctx.budget(200, 3000))
     chain_stream(ctx, ctx.budget(150, 2000))
